@@ -701,7 +701,9 @@ def r_json_kinds(E):
         if isinstance(n, ast.Compare) and isinstance(n.ops[0], ast.In) \
                 and isinstance(n.comparators[0], (ast.List, ast.Tuple, ast.Set)) and norm(n.left) in keyvars:
             whitelist |= {e.value for e in n.comparators[0].elts if isinstance(e, ast.Constant)}
-    tests = [n.test for n in ast.walk(tj) if isinstance(n, ast.If)]
+    # (the kind dispatch may sit in a helper of the class that to_json calls per attribute)
+    from ..astutil import nodes_through_helpers as _nthk
+    tests = [n.test for n in _nthk(tj, pm.helper_finder("ModelingObject"), depth=2) if isinstance(n, ast.If)]
 
     def isinst(name):
         return any(isinstance(c, ast.Call) and norm(c.func) == "isinstance" and len(c.args) == 2 and name in norm(c.args[1])
@@ -1070,6 +1072,10 @@ def _is_change_pair(fn, old, new):
         if isinstance(a, (ast.Assign, ast.For)):
             t = a.targets[0] if isinstance(a, ast.Assign) else a.target
             src = a.value if isinstance(a, ast.Assign) else a.iter
+            # for index, (old, new) in enumerate(self.changes_list)
+            if isinstance(a, ast.For) and isinstance(t, ast.Tuple) and len(t.elts) == 2 and isinstance(t.elts[1], ast.Tuple) \
+                    and isinstance(src, ast.Call) and norm(src.func) == "enumerate":
+                t = t.elts[1]
             if isinstance(t, ast.Tuple) and len(t.elts) == 2 and all(isinstance(x, ast.Name) for x in t.elts) \
                     and [t.elts[0].id, t.elts[1].id] == [old, new]:
                 if "changes_list" in norm(src):
